@@ -93,7 +93,10 @@ pub struct Parser<'a> {
     arena: &'a Bump,
     current: Token<'a>,
     errors: Vec<ParseError<'a>>,
+    depth: usize,
 }
+
+const MAX_NESTING_DEPTH: usize = 128;
 
 #[derive(Debug, Clone)]
 pub struct ParseError<'a> {
@@ -118,6 +121,7 @@ impl<'a> Parser<'a> {
             arena,
             current,
             errors: Vec::new(),
+            depth: 0,
         }
     }
 
@@ -413,6 +417,17 @@ impl<'a> Parser<'a> {
     }
 
     fn parse_select(&mut self) -> Result<SelectStmt<'a>> {
+        self.depth += 1;
+        if self.depth > MAX_NESTING_DEPTH {
+            self.depth -= 1;
+            bail!("statement nesting exceeds {} levels", MAX_NESTING_DEPTH);
+        }
+        let result = self.parse_select_inner();
+        self.depth -= 1;
+        result
+    }
+
+    fn parse_select_inner(&mut self) -> Result<SelectStmt<'a>> {
         let with = if self.check_keyword(Keyword::With) {
             Some(self.parse_with_clause()?)
         } else {
@@ -725,6 +740,17 @@ impl<'a> Parser<'a> {
     }
 
     fn parse_table_ref(&mut self) -> Result<&'a FromClause<'a>> {
+        self.depth += 1;
+        if self.depth > MAX_NESTING_DEPTH {
+            self.depth -= 1;
+            bail!("statement nesting exceeds {} levels", MAX_NESTING_DEPTH);
+        }
+        let result = self.parse_table_ref_inner();
+        self.depth -= 1;
+        result
+    }
+
+    fn parse_table_ref_inner(&mut self) -> Result<&'a FromClause<'a>> {
         if self.consume_token(&Token::LParen) {
             if self.check_keyword(Keyword::Select) || self.check_keyword(Keyword::With) {
                 let query = self.parse_select()?;
@@ -874,6 +900,17 @@ impl<'a> Parser<'a> {
     }
 
     fn parse_expr(&mut self, min_bp: u8) -> Result<Expr<'a>> {
+        self.depth += 1;
+        if self.depth > MAX_NESTING_DEPTH {
+            self.depth -= 1;
+            bail!("statement nesting exceeds {} levels", MAX_NESTING_DEPTH);
+        }
+        let result = self.parse_expr_inner(min_bp);
+        self.depth -= 1;
+        result
+    }
+
+    fn parse_expr_inner(&mut self, min_bp: u8) -> Result<Expr<'a>> {
         let mut lhs = self.parse_prefix()?;
 
         loop {
